@@ -6,19 +6,18 @@ export GOFLAGS=-mod=mod GOPROXY=off GOSUMDB=off GOTOOLCHAIN=local
 dir="$(realpath "$1")"; shift
 wt="$(mktemp -d /tmp/tryneutral.XXXXXX)"
 git -C /repo worktree add --detach "$wt" HEAD >/dev/null 2>&1 || { echo "cannot create worktree"; exit 2; }
-cleanup() { git -C /repo worktree remove --force "$wt" >/dev/null 2>&1; rm -rf "$wt"; }
+cleanup() { git -C /repo worktree remove --force "$wt" >/dev/null 2>&1; rm -rf "$wt" "$wt.err" "$wt.out"; }
 trap cleanup EXIT
 cd "$wt"
-git apply "$dir/patch.diff" 2>/tmp/tryn.err || { echo "NEUTRAL-INVALID: patch does not apply: $(head -2 /tmp/tryn.err)"; exit 3; }
-go build ./... >/tmp/tryn.err 2>&1 || { echo "NEUTRAL-INVALID: does not build"; head -5 /tmp/tryn.err; exit 3; }
-go test -vet=off -count=1 ./... >/tmp/tryn.err 2>&1 || { echo "NEUTRAL-INVALID: existing tests fail"; grep -m3 -- "--- FAIL" /tmp/tryn.err; exit 3; }
+git apply "$dir/patch.diff" 2>"$wt.err" || { echo "NEUTRAL-INVALID: patch does not apply: $(head -2 "$wt.err")"; exit 3; }
+go build ./... >"$wt.err" 2>&1 || { echo "NEUTRAL-INVALID: does not build"; head -5 "$wt.err"; exit 3; }
+go test -vet=off -count=1 ./... >"$wt.err" 2>&1 || { echo "NEUTRAL-INVALID: existing tests fail"; grep -m3 -- "--- FAIL" "$wt.err"; exit 3; }
 echo "NEUTRAL-VALID: builds, suite passes"
 cd /verif
-[ -n "$(git -C /repo status --porcelain)" ] && { echo "/repo is not clean"; exit 2; }
-git -C /repo apply "$dir/patch.diff" || exit 2
+# the checks run against the scratch worktree (./check's VERIF_REPO override):
+# /repo and /verif/evidence stay untouched
 for id in "$@"; do
-  ./check "$id" quick > /tmp/tryn.out 2>&1; rc=$?
+  VERIF_REPO="$wt" ./check "$id" quick > "$wt.out" 2>&1; rc=$?
   echo "CHECK $id quick exit=$rc"
-  if [ $rc -ne 0 ]; then grep -v KNOWN /tmp/tryn.out | head -8 | cut -c1-400; fi
+  if [ $rc -ne 0 ]; then grep -v KNOWN "$wt.out" | head -8 | cut -c1-400; fi
 done
-git -C /repo checkout -- .
